@@ -20,28 +20,7 @@ Inductive c02_case :=
     (* allocator stress on the real tso: per goroutine the revisions Deal() returned, in order, while
        another goroutine keeps calling Commit with revisions ahead of the counter *)
 
-(* ---------- model of a read case ---------- *)
-
-Fixpoint run_to_response (cidx0 : bool) (fuel : nat) (s : state) (queue : list req)
-  : state * list req * list resp :=
-  match fuel with
-  | O => (s, queue, [])
-  | S f =>
-      let '(s1, qu, resps, _) := resume cidx0 s 0 EnvOk queue in
-      match resps with
-      | [] => if is_engine_pc (thr s1 0) then run_to_response cidx0 f s1 qu else (s1, qu, [])
-      | _ => (s1, qu, resps)
-      end
-  end.
-
-(* one write at a time: the next request is invoked only after the previous response *)
-Fixpoint run_writes (cidx0 : bool) (s : state) (ws : list (req * resp)) : option state :=
-  match ws with
-  | [] => Some s
-  | (q, r) :: ws' =>
-      let '(s1, _, resps) := run_to_response cidx0 8 s [q] in
-      if list_eqb resp_eqb resps [r] then run_writes cidx0 s1 ws' else None
-  end.
+(* ---------- model of a read case (run_writes: C01Cases.v) ---------- *)
 
 Definition kvr3_eqb (a b : key * bytes * N) : bool :=
   (fst (fst a) =? fst (fst b)) && beqb (snd (fst a)) (snd (fst b)) && (snd a =? snd b).
